@@ -529,6 +529,10 @@ def step (d : D) (line : String) : IO D := do
         if d.backupSpecs.any (fun m => sameItems o.items m.items) then pure d
         else fail d "SPEC" s!"backup holds {o.items.length} keys: not the contents at any instant between Backup's call and return"
   | "failedopen" :: _ => pure d
+  | "bcompact" :: res :: _ =>
+    -- Compact called while Backup runs: the maintenance lock must refuse it
+    if res == "busy" then pure d
+    else fail d "MODEL" s!"Compact returned {res} while a Backup was in progress (maintenance tasks must exclude each other)"
   | "gexpect" :: rest =>
     match (field rest "items").bind parseItems with
     | none => fail d "MODEL" "gexpect: bad items"
